@@ -15,7 +15,8 @@ Record tdef := {
   t_fsm : fsmdef;
   t_class_dur : list (string * dval);     (* TIMERS defaults *)
   t_inst_dur : list (string * dval);      (* t_STATE= of the instance (None = not given) *)
-  t_cond : list (string * tcond) }.       (* cond_EVENT *)
+  t_cond : list (string * tcond);        (* cond_EVENT *)
+  t_enter_goto : list (string * string) }.  (* enter_STATE action requesting Goto(state') *)
 
 (* effective duration: the event's 'duration' item > instance t_STATE > class default *)
 Definition eff_duration (d : tdef) (state : string) (ev_dur : dval) : dval :=
@@ -89,7 +90,9 @@ Definition target (d : tdef) (s : tstate) (e : etype) : res (option string) :=
       | Some cur =>
           match next_state (t_fsm d) ev cur with
           | None => Ok None
-          | Some nxt => match assoc ev (t_cond d) with
+          | Some nxt =>
+              (* conditions are consulted on an initialised FSM only (output already set) *)
+              match (match ts_entries s with [] => None | _ => assoc ev (t_cond d) end) with
                         | Some CFalse => Ok None
                         | Some (CNotIn x) => if String.eqb cur x then Ok None else Ok (Some nxt)
                         | _ => Ok (Some nxt)
@@ -104,6 +107,11 @@ Fixpoint enter_chain (n : nat) (d : tdef) (s : tstate) (x : string) (ev_dur : dv
   | O => (s, Some EHandler)
   | S k =>
       let s1 := enter_state s x in
+      match assoc x (t_enter_goto d) with
+      | Some nxt =>                      (* chained on by the entry action: no timer is started *)
+          if str_mem nxt (fd_states (t_fsm d)) then enter_chain k d s1 nxt DNoneV
+          else (s1, Some EValue)
+      | None =>
       match assoc x (fd_timed (t_fsm d)) with
       | None => (s1, None)
       | Some tev =>
@@ -119,6 +127,7 @@ Fixpoint enter_chain (n : nat) (d : tdef) (s : tstate) (x : string) (ev_dur : dv
                 end
               else (set_timer s1 us, None)
           end
+      end
       end
   end.
 
